@@ -81,6 +81,31 @@ fn generate_model(rng: &mut Rng) -> (String, Vec<Invocable>) {
     &format!("mean(for i in 1..{a} return i * n) + max([n, {b}, {c}]) * modulo(n + {a}, {b} + 1) + abs(n - {c}) + exp(1) + log({b} + 1)", a = 10 + rng.below(40), b = b, c = c),
   ));
   inv.push(Invocable { name: "Num2".into(), kind: "numeric", locks: dec_locks.clone() });
+  // rounding to integers, many times per call: floor / ceiling / round-to-scale / modulo / odd of numbers with a
+  // fraction (each rounds with a mode of its own) ...
+  let (ia, ib) = (30 + rng.below(40), 20 + rng.below(30));
+  x.push_str(&decision(
+    "Int1",
+    "",
+    &[("input", "_n")],
+    &format!(
+      "[sum(for i in 1..{a} return floor(n + i / 8) + ceiling(n - i / 16)), sum(for i in 1..{a} return decimal(n + i / 8, 2) + modulo(n + i, 0.75)), for i in 1..8 return [floor(-(n + i / 4)), ceiling(-(n + i / 4)), odd(n + i / 4), even(i)]]",
+      a = ia
+    ),
+  ));
+  inv.push(Invocable { name: "Int1".into(), kind: "integral", locks: dec_locks.clone() });
+  // ... while another call computes results that lie exactly half-way (or nearly) between two 34-digit numbers, and
+  // inexact quotients: the results that depend on the rounding mode of the decimal context, which is per call
+  x.push_str(&decision(
+    "Tie1",
+    "",
+    &[("input", "_n")],
+    &format!(
+      "[for i in 1..{b} return (n + i) / 3, for i in 1..{b} return (n + i) / 7, for i in 1..{b} return 1000000000000000000000000000000001 + 2 * i + 0.5, for i in 1..{b} return 1000000000000000000000000000000000 + 2 * i + 0.5, for i in 1..{b} return (1000000000000000000000000000000001 + 2 * i) * 1.5, for i in 1..{b} return 2000000000000000000000000000000000 + i + 0.5000000001, for i in 1..{b} return -(3000000000000000000000000000000000 + i) - 0.4999999999, for i in 1..{b} return 0.6666666666666666666666666666666667 * (n + i)]",
+      b = ib
+    ),
+  ));
+  inv.push(Invocable { name: "Tie1".into(), kind: "tie", locks: dec_locks.clone() });
   // temporal
   let (days, hours, months) = (1 + rng.below(40), 1 + rng.below(23), 1 + rng.below(30));
   x.push_str(&decision(
@@ -255,7 +280,7 @@ enum Msg {
 pub fn run(cfg: &Cfg) -> Report {
   let mut rep = Report::new(
     "C20",
-    "rounds: one shared Arc<ModelEvaluator>, 2..16 threads, each a randomly ordered sequence of evaluate_invocable calls over numeric / temporal / regular-expression / decision-table / chained / knowledge-model / decision-service invocables with generated inputs; randomised barriers, yields and spins. Non-trivial: at least two threads and at least two kinds of invocable in the round; distinct by (threads, call sequence) description.",
+    "rounds: one shared Arc<ModelEvaluator>, 2..16 threads, each a randomly ordered sequence of evaluate_invocable calls over numeric / integer-rounding / tie-computing / temporal / regular-expression / decision-table / chained / knowledge-model / decision-service invocables with generated inputs; randomised barriers, yields and spins. Non-trivial: at least two threads and at least two kinds of invocable in the round; distinct by (threads, call sequence) description.",
   );
   let mut rng = Rng::new(cfg.seed);
   let mut model = Model::start(&cfg.driver);
@@ -305,11 +330,20 @@ pub fn run(cfg: &Cfg) -> Report {
     let mut calls: Vec<Call> = vec![];
     let n_calls = 40 + rng.below(40) as usize;
     let gap1 = invocables.iter().position(|i| i.name == "Gap1");
+    let int1 = invocables.iter().position(|i| i.name == "Int1");
+    let tie1 = invocables.iter().position(|i| i.name == "Tie1");
     for ci in 0..n_calls {
       let mut invocable = rng.below(invocables.len() as u64) as usize;
       let mut input_text = gen_input(&mut rng);
       if ci % 10 == 7 {
         invocable = invocables.len() - 1;
+      }
+      // every call table has calls that round to integers and calls that compute ties
+      if let (true, Some(g)) = (ci % 10 == 1, int1) {
+        invocable = g;
+      }
+      if let (true, Some(g)) = (ci % 10 == 5, tie1) {
+        invocable = g;
       }
       if let (true, Some(g)) = (ci % 10 == 3, gap1) {
         invocable = g;
@@ -354,6 +388,8 @@ pub fn run(cfg: &Cfg) -> Report {
         rep.sample(json!({"invocable": invocables[c.invocable].name, "input": c.input_text, "sequential_result": c.expected}));
       }
     }
+    let int_calls: Vec<usize> = calls.iter().enumerate().filter(|(_, c)| invocables[c.invocable].kind == "integral").map(|(i, _)| i).collect();
+    let tie_calls: Vec<usize> = calls.iter().enumerate().filter(|(_, c)| invocables[c.invocable].kind == "tie").map(|(i, _)| i).collect();
     let calls = Arc::new(calls);
 
     for _round in 0..rounds_per_model {
@@ -368,12 +404,14 @@ pub fn run(cfg: &Cfg) -> Report {
       let mut plan: Vec<Vec<usize>> = vec![];
       let mut kinds = std::collections::BTreeSet::new();
       // sometimes every thread hammers the same call, sometimes all differ
-      let mode = rng.below(4);
+      // (mode 4: half of the threads round to integers while the other half computes ties)
+      let mode = if int_calls.is_empty() || tie_calls.is_empty() { rng.below(4) } else { rng.below(5) };
       let hot = rng.below(calls.len() as u64) as usize;
-      for _ in 0..threads {
+      for ti in 0..threads {
         let k = 1 + rng.below(if thorough { 40 } else { 24 }) as usize;
         let seq: Vec<usize> = (0..k)
           .map(|_| match mode {
+            4 => *rng.pick(if ti % 2 == 0 { &int_calls } else { &tie_calls }),
             0 => hot,
             1 => {
               if rng.chance(1, 2) {
@@ -495,7 +533,7 @@ pub fn run(cfg: &Cfg) -> Report {
       rounds_done += 1;
       rep.case(&key, threads >= 2 && kinds.len() >= 2);
       rep.hit(&format!("threads:{}", if threads <= 4 { "2-4" } else if threads <= 8 { "5-8" } else { "9-16" }));
-      rep.hit(&format!("mode:{}", ["same-call", "half-hot", "mixed", "mixed"][mode as usize]));
+      rep.hit(&format!("mode:{}", ["same-call", "half-hot", "mixed", "mixed", "integral-vs-tie"][mode as usize]));
       for (ti, out) in &results {
         for (c, r) in out {
           total_calls += 1;
